@@ -420,6 +420,11 @@ func reduced() []wire.Spec {
 		with(S("POST", wire.FChunkedTrailer, 1), func(s *wire.Spec) { s.Close = true }),
 		with(S("POST", wire.FCLExpect, 8193), func(s *wire.Spec) { s.Extra = wire.XFoldSP }),
 		with(S("POST", wire.FChunkedTrailer, 2), func(s *wire.Spec) { s.TrUnannounced = true }),
+		with(S("GET", wire.FNone, 0), func(s *wire.Spec) { s.Extra = wire.XTabOWS }),
+		with(S("POST", wire.FCL, 5), func(s *wire.Spec) { s.Extra = wire.XFoldColon }),
+		with(S("POST", wire.FCL, 5), func(s *wire.Spec) { s.TabFraming = true }),
+		with(S("POST", wire.FChunked, 5), func(s *wire.Spec) { s.TabFraming = true }),
+		with(S("POST", wire.FChunked, 5), func(s *wire.Spec) { s.LongChunkSize = true }),
 		with(S("POST", wire.FCLExpect, 5), func(s *wire.Spec) { s.Decline = true }),
 		with(S("POST", wire.FChunkedExpect, 3), func(s *wire.Spec) { s.Decline = true }),
 		with(S("POST", wire.FCL, 120), func(s *wire.Spec) { s.Multipart = true }),
